@@ -180,11 +180,10 @@ Theorem generated_late_failures_only_known :
 Proof. vm_compute. reflexivity. Qed.
 Print Assumptions generated_late_failures_only_known.
 
-(* 6. (defaults part) twins have the same literal defaults, except text_k (known finding) *)
-Theorem generated_twin_defaults_only_known :
-  subset_str2 (twin_diffs (twins ++ std_param_twins)) [("create_pipes", "text_k"); ("create_pipe", "text_k")] = true.
+(* 6. (defaults part) twins (bulk / single, std-type / parameters) have the same literal defaults *)
+Theorem generated_twin_defaults_equal : twin_diffs (twins ++ std_param_twins) = [].
 Proof. vm_compute. reflexivity. Qed.
-Print Assumptions generated_twin_defaults_only_known.
+Print Assumptions generated_twin_defaults_equal.
 
 (* ---- the hypotheses are satisfiable: a populated net, accepted and rejected calls ---- *)
 Definition ex_args (idx : option Z) (refs : list Z) : args :=
